@@ -636,7 +636,25 @@ def _sys(k):
     return BadRepr()
 
 
-NLEVEL = 6
+class LazyLevel:
+    """level-like object whose .name is a property raising something other than AttributeError"""
+
+    @property
+    def name(self):
+        raise Boom("LazyLevel.name")
+
+    def __str__(self):
+        return "lazy"
+
+
+class ProxyLevel:
+    """every attribute lookup fails with a non-AttributeError"""
+
+    def __getattr__(self, attr):
+        raise RuntimeError("backend gone")
+
+
+NLEVEL = 8
 
 
 def _level(k):
@@ -650,7 +668,11 @@ def _level(k):
         return "info"
     if k == 4:
         return 5
-    return BadStr()
+    if k == 5:
+        return BadStr()
+    if k == 6:
+        return LazyLevel()
+    return ProxyLevel()
 
 
 NFAIL = 8
@@ -1038,7 +1060,8 @@ VECTORS = {
     "unformattable": [("{a()}", 8, 2), ("x", 5, 0), ("", 0, 5), ("zz", 7, 3), ("k", 1, 4)],
     "as_text": [(3, 0, True, 2), (5, 4, False, 0), (0, 0, True, 5), (6, 5, True, 4), (8, 9, False, 7), (2, 0, True, 0)],
     "sys_fields": [(False, True, True, 3, 2, 0, 0), (False, True, True, 1, 5, 0, 0), (False, True, True, 4, 0, 5, 3),
-                   (True, True, True, 8, 0, 0, 5), (False, True, False, 6, 0, 0, 0), (False, False, True, 0, 3, 4, 4)],
+                   (True, True, True, 8, 0, 0, 5), (False, True, False, 6, 0, 0, 0), (False, False, True, 0, 3, 4, 4),
+                   (False, True, True, 1, 0, 2, 6), (False, True, True, 1, 0, 0, 7), (False, False, True, 0, 2, 0, 6)],
     "legacy_format": [(0, 4, 0), (1, 5, 11), (0, 0, 10), (2, 0, 3), (3, 7, 5)],
     "legacy_error": [(0, 4, 2, True), (0, 2, 0, True), (0, 3, 3, True), (0, 0, 0, True), (1, 7, 1, False)],
 }
@@ -1053,7 +1076,7 @@ BOUNDS_TEXT = ("format strings over the 14 characters { } ! : . [ ] ( ) a b 0 r 
                "attribute holder in the sharded runs.  Menu harnesses (the solver only drives the case split, the "
                "real code then runs natively): 9 log_format kinds (missing, None, '', text, utf-8 bytes, invalid "
                "bytes, int, object with raising repr, nested-spec + call format) x 14 values x 8 log_failure kinds "
-               "x traceback flag; 9 log_time x 6 log_system x 6 log_namespace x 6 log_level kinds x both flags "
+               "x traceback flag; 9 log_time x 6 log_system x 6 log_namespace x 8 log_level kinds (incl. levels whose .name property / __getattr__ raise) x both flags "
                "(quick: odd times with default system fields and odd system fields with missing/None time; "
                "thorough: full product); formatUnformattableEvent with 6 error kinds x 14 values x symbolic "
                "format of <= 2 characters; twisted.python.log.textFromEventDict/_safeFormat with 11 '%' formats x "
